@@ -316,8 +316,20 @@ func normalizeHostNoLower(host string, tls bool) string {
 // routing table which match the normalized request hostname.
 func (t Table) matchingHosts(req *http.Request, globCache *GlobCache) (hosts []string) {
 	host := normalizeHost(req.Host, req.TLS != nil)
+
+	// does the request ask for a port other than the default port?
+	_, _, err := net.SplitHostPort(host)
+	otherPort := err == nil
+
 	for pattern := range t {
 		normpat := normalizeHost(pattern, req.TLS != nil)
+
+		// a pattern which ends in the default port ('*:80') asks for that
+		// port. Without it ('*') it would also swallow the port of a request
+		// for a different one ('example.com:3000').
+		if otherPort && normpat != pattern {
+			continue
+		}
 
 		// Issue 548
 		//
